@@ -13,7 +13,7 @@ RULE = ("grammar workload of C08 x bounds n in 0..5 and unbounded on finite lang
         "get_words(n) as a duplicate-free list equal as a set to the bounded language; enumeration also stepped "
         "with interleaved queries and abandoned; non-trivial = non-empty language and >=3 productions; distinct "
         "= (grammar digest, order signature)")
-ASSUMPTIONS = ["variable and terminal value sets are disjoint",
+ASSUMPTIONS = ["variable and terminal symbol sets are disjoint; in part of the cases one variable and one terminal carry the same value",
                "bounded liveness: get_words() on a finite language must finish within LINE_BUDGET line events"]
 LINE_BUDGET = 3000000
 
